@@ -506,6 +506,19 @@ impl<'tcx> M<'tcx> {
         self.run_frame(fr, args)
     }
 
+    /// evaluate a promoted constant body (`&CONST_EXPR` hoisted by rustc) in the generic context of `inst`: its MIR is interpreted like any other body
+    pub fn run_promoted(&mut self, inst: Instance<'tcx>, body: &'tcx Body<'tcx>) -> R<V<'tcx>> {
+        let tcx = self.tcx;
+        let mut fr = Frame { inst, body, locals: vec![] };
+        for (_l, d) in body.local_decls.iter_enumerated() {
+            let t = self.mono(&fr, d.ty);
+            let v = mk_uninit(tcx, t);
+            let a = self.new_alloc(v, "promoted-local");
+            fr.locals.push(a);
+        }
+        self.run_frame(fr, vec![])
+    }
+
     fn run_frame(&mut self, fr: Frame<'tcx>, args: Vec<(V<'tcx>, Ty<'tcx>)>) -> R<V<'tcx>> {
         let tcx = self.tcx;
         let body = fr.body;
